@@ -4,7 +4,7 @@ import os
 
 from . import lib, wgen, simfs
 
-SINKS = ['simpath', 'simstream', 'bytesio', 'realpath']
+SINKS = ['simpath', 'simstream', 'bytesio', 'realpath', 'minimal']
 
 
 class Trace(object):
@@ -17,6 +17,28 @@ class Trace(object):
         self.exc = None        # exception escaping the writer's with-block machinery
         self.extents_from_walk = False
         self.arrays = {}       # array objects the program hands to the writer more than once
+
+
+class MinimalSink(object):
+    """A hand-written destination (a tee, a forwarding wrapper, an upload buffer): it can be written to and flushed and
+    nothing else - no fileno(), no tell(), no seek(), and reading from it fails.  `getvalue()` is the harness' own window into it."""
+    def __init__(self):
+        self._parts = []
+
+    def write(self, b):
+        b = bytes(b)
+        self._parts.append(b)
+        return len(b)
+
+    def flush(self):
+        pass
+
+    def read(self, n=-1):
+        # (the writer tells a stream from a path by the presence of `read`)
+        raise OSError('write-only destination')
+
+    def getvalue(self):
+        return b''.join(self._parts)
 
 
 class _Lifecycle(object):
@@ -43,7 +65,7 @@ class _Lifecycle(object):
 def _size(st, sink, name, handles):
     if sink == 'simpath' or sink == 'simstream':
         return len(st.fs.files.get(name, b''))
-    if sink == 'bytesio':
+    if sink in ('bytesio', 'minimal'):
         h = handles.get(name)
         return len(h.getvalue()) if h is not None else 0
     p = os.path.join(st.realdir(), name)
@@ -81,9 +103,9 @@ def steps_program(st, program, sink, with_index, tr, name='out.tdms', after_sess
                     if with_index:
                         streams[iname] = st.fs.stream(iname, 'w+b')
                 else:
-                    streams[name] = io.BytesIO()
+                    streams[name] = io.BytesIO() if sink == 'bytesio' else MinimalSink()
                     if with_index:
-                        streams[iname] = io.BytesIO()
+                        streams[iname] = io.BytesIO() if sink == 'bytesio' else MinimalSink()
             target = streams[name]
             kw = {'index_file': streams[iname] if with_index else False}
         first = call_no
@@ -168,7 +190,7 @@ def snapshot(st, sink, name, streams, tr, with_index):
     if sink in ('simpath', 'simstream'):
         tr.data = st.fs.get(name) if name in st.fs.files else b''
         tr.index = st.fs.get(iname) if with_index and iname in st.fs.files else None
-    elif sink == 'bytesio':
+    elif sink in ('bytesio', 'minimal'):
         tr.data = streams[name].getvalue()
         tr.index = streams[iname].getvalue() if with_index else None
     else:
